@@ -1,5 +1,5 @@
 /- L0 facts about the accessors, Display and Default of ChandelierExit (split from Lemmas/ChandelierExit.lean so that a change to one method only invalidates the facts about that method) -/
-import TaRs.Lemmas.ChandelierExit
+import TaRs.Lemmas.Core.ChandelierExit
 import TaRs.Lemmas.Misc.Minimum
 import TaRs.Lemmas.Misc.Maximum
 import TaRs.Lemmas.Misc.AverageTrueRange
